@@ -45,8 +45,12 @@ type EvCall struct {
 	Name  string             `json:"name,omitempty"`
 	Apply string             `json:"apply,omitempty"` // ok fail noop nilrev
 	Rev   *gen.Val           `json:"rev,omitempty"`   // old value(s) returned by the apply handler
-	// FailKind: the error of a failing apply handler ("" plain error, notfound, reserr).
+	// FailKind: the error of a failing apply handler ("" plain error, notfound, reserr), or the
+	// value it panics with instead (panicstring, panicint).
 	FailKind string `json:"failKind,omitempty"`
+	// ExtraRev: the ApplyChange handler also reports the old value of a property that is not
+	// among the changed ones ("version"); the listeners get the revert map as it was returned.
+	ExtraRev bool `json:"extraRev,omitempty"`
 }
 
 // Callback is one callback.
@@ -69,9 +73,13 @@ type Config struct {
 type Case struct {
 	// PubFail: the connection refuses every event publish (query events aside). The attempts
 	// are logged; apply handlers and listeners must run exactly as with a healthy connection.
-	PubFail bool       `json:"pubFail,omitempty"`
-	Cfg     Config     `json:"cfg"`
-	Cbs     []Callback `json:"cbs"`
+	PubFail bool `json:"pubFail,omitempty"`
+	// ShutdownDuring: the last callback (a With callback) runs its script after Shutdown has been
+	// called and has marked the service as stopping, but before it has closed the connection
+	// (Shutdown is held at its first hook point meanwhile): the events are events like any other.
+	ShutdownDuring bool       `json:"shutdownDuring,omitempty"`
+	Cfg            Config     `json:"cfg"`
+	Cbs            []Callback `json:"cbs"`
 }
 
 func (c Case) String() string { b, _ := json.Marshal(c); return string(b) }
@@ -228,6 +236,9 @@ func (h *harness) handlerOpts(cfg Config, typ string) []res.Option {
 					rev[k] = res.DeleteAction
 				}
 			}
+			if c.ExtraRev {
+				rev["version"] = 7
+			}
 			return rev, nil
 		}))
 	}
@@ -364,6 +375,11 @@ func (h *harness) build(cfg Config) *res.Service {
 // library's own error values (whatever its code, the event must not happen).
 func (c *EvCall) failErr() error {
 	switch c.FailKind {
+	case "panicstring":
+		// an apply handler may also fail by panicking, with whatever value
+		panic("apply failed: " + c.Op)
+	case "panicint":
+		panic(42)
 	case "notfound":
 		return res.ErrNotFound
 	case "reserr":
@@ -495,6 +511,9 @@ func predict(cfg Config, cb Callback, reply string) (out []logEntry, failing, in
 						} else {
 							rev[k] = json.RawMessage(`{"action":"delete"}`)
 						}
+					}
+					if c.ExtraRev {
+						rev["version"] = json.RawMessage(`7`)
 					}
 					old = js(rev)
 				}
@@ -736,14 +755,25 @@ func runCase(c Case) (string, bool) {
 		}
 	}
 	s := h.build(c.Cfg)
-	r, err := svc.Start(s, h.conn, nil)
+	stopping, release := make(chan struct{}), make(chan struct{})
+	var hookOnce sync.Once
+	var armed atomic.Bool
+	r, err := svc.Start(s, h.conn, func(point string, arg interface{}) {
+		if point == "shutdown.cas" && armed.Load() {
+			hookOnce.Do(func() {
+				close(stopping)
+				<-release
+			})
+		}
+	})
 	if err != nil {
 		return "start: " + err.Error(), false
 	}
 	defer r.Stop()
 	nt := false
-	for _, cb := range c.Cbs {
+	for ci, cb := range c.Cbs {
 		cb := cb
+		duringShutdown := c.ShutdownDuring && ci == len(c.Cbs)-1 && cb.Via == "with"
 		start := h.conn.LogLen()
 		reply := ""
 		switch cb.Via {
@@ -751,6 +781,15 @@ func runCase(c Case) (string, bool) {
 			done := make(chan struct{})
 			if err := s.With(cb.RName, func(rr res.Resource) {
 				defer close(done)
+				if duringShutdown {
+					armed.Store(true)
+					go func() { _ = s.Shutdown() }()
+					select {
+					case <-stopping:
+					case <-time.After(20 * time.Second):
+					}
+					defer close(release)
+				}
 				if cb.Via == "value" {
 					h.mu.Lock()
 					h.curCb = &cb
@@ -871,6 +910,7 @@ func genCase() *rapid.Generator[Case] {
 		}
 		c.Cfg.Warm = rapid.IntRange(0, 3).Draw(t, "warm") == 0
 		c.PubFail = rapid.IntRange(0, 5).Draw(t, "pubfail") == 0
+		c.ShutdownDuring = rapid.IntRange(0, 5).Draw(t, "shutdownDuring") == 0
 		n := rapid.IntRange(1, 4).Draw(t, "ncb")
 		for i := 0; i < n; i++ {
 			cb := Callback{Via: rapid.SampledFrom([]string{"with", "call", "call", "get", "access", "query", "kept", "value"}).Draw(t, "via")}
@@ -909,7 +949,7 @@ func genCall(t *rapid.T, class string) EvCall {
 	c := EvCall{Op: rapid.SampledFrom(ops).Draw(t, "op")}
 	c.Apply = rapid.SampledFrom([]string{"ok", "ok", "ok", "fail", "noop", "nilrev"}).Draw(t, "apply")
 	if c.Apply == "fail" {
-		c.FailKind = rapid.SampledFrom([]string{"", "notfound", "reserr"}).Draw(t, "failkind")
+		c.FailKind = rapid.SampledFrom([]string{"", "notfound", "reserr", "panicstring", "panicint"}).Draw(t, "failkind")
 	}
 	if c.Apply == "noop" && c.Op != "change" {
 		c.Apply = "ok"
@@ -930,6 +970,7 @@ func genCall(t *rapid.T, class string) EvCall {
 			v := genVal().Draw(t, "rev")
 			c.Rev = &v
 		}
+		c.ExtraRev = rapid.IntRange(0, 3).Draw(t, "extrarev") == 0
 	case "add":
 		v := genVal().Draw(t, "v")
 		c.V = &v
